@@ -23,6 +23,8 @@ def universes():
     a["b_r_t10"] = make_event("B", 10002, 10, [], "")
     a["a_r2_t10"] = make_event("A", 10003, 10, [], "")
     a["a_k1_t10"] = make_event("A", 1, 10, [], "regular")
+    from ..universe import delegation_tag
+    a["b_r_t7_dlgA"] = make_event("B", 10002, 7, [delegation_tag("A", "B", "kind=10002")], "delegated by A")
     U["U9a"] = a
     b = {}
     dvals = (("abs", None), ("bare", ["d"]), ("emp", ["d", ""]), ("a", ["d", "a"]), ("ab", ["d", "ab"]),
